@@ -18,24 +18,24 @@ CLAIMED = {
 
  "C12": {
   "text": "Gate-by-precondition on the real text of update_prove_state_to_child, commit_prove_state, SendLastStateProcess::execute (child fast path), ProveState::new_child/is_parent_of, check_verifiable_header, patched_is_valid, is_parent_of: the stored-tip writer Storage::update_last_state requires (a) a strictly greater total difficulty than the stored one and (b) evidence that difficulty, header and last-N window come from one trusted prove state; a child is trusted only if it is a PoW-valid, chain-root-committing child of a trusted tip whose chain root's total difficulty equals the proven parent's. Verus proves every call site discharges these for all inputs.",
-  "note": "Evidence predicates are uninterpreted and defined by introduction rules (trusted definitions from the property text); storage/peer table are shims; restart round-trip not covered. Found and fixed: S2 (53bb5c8).",
+  "note": "Evidence predicates are uninterpreted and defined by introduction rules (trusted definitions from the property text); storage/peer table are shims; restart round-trip not covered. Found and fixed: S2 (53bb5c8). Session 3: unit genesis_init (on an initialised database init_genesis_block never writes).",
   "ref": "DESIGN.md 5-C12"},
 
  "C01": {
   "text": "Gate-by-precondition over the real text of SendLastStateProofProcess::execute (300 lines), check_if_response_is_matched, check_continuous_headers, verify_mmr_proof, check_chain_root_for_headers, check_pow_for_headers, check_verifiable_header, patched_is_valid, is_parent_of, commit_prove_state, get_last_state_proof, process_last_state: the only writers of trusted chain state (peer prove state, stored tip, index rollback) require the evidence predicate ps_trusted, whose introduction rule is the conjunction the property statement lists (answers the outstanding request; every header PoW-valid and committing to its chain root; reorg and last-N sections continuous; MMR proof binds all headers to the chain root committed by the requested last header; sections have exactly the requested shape - proved against a closed spec shape_ok incl. the sample/difficulty matching loop; tau and total-difficulty evidence). Verus proves that every path of the handler reaching a writer carries all of it, for every response, peer state and stored state.",
-  "note": "Uninterpreted crypto predicates; molecule/storage/peer-table shims; iterator adapters lowered to assumed helpers; definitions of the evidence predicates are trusted text derived from the property. Found and fixed while proving: S1b (4e1a4f2), S1e/S1f (f66b534), S1h (slice panic).",
+  "note": "Uninterpreted crypto predicates; molecule/storage/peer-table shims; iterator adapters lowered to assumed helpers; definitions of the evidence predicates are trusted text derived from the property. Found and fixed while proving: S1b (4e1a4f2), S1e/S1f (f66b534), S1h (slice panic). Session 3: fix S19 (2b8e1fd: a response carrying only the reorg section was accepted) found through a sub-agent's observation; shape_ok completed from the property text (an empty last-N section only for an empty request); find_if_a_header_is_proved's per-peer closure under contract.",
   "ref": "DESIGN.md 5-C01"},
  "C03": {
   "text": "Partial: contract on the real text of Storage::filter_block: for every block, registered script set and store content the committed write batch is exactly the prescribed index update (per input that spends a registered script's output: delete the live cell keyed by its CREATING block/tx/output index, add the history entry of the spending position, store the transaction; per output of a registered script: add live cell, history entry, transaction; same-block chains resolved through the earlier transactions of the block; header stored iff something matched), with the real key encoder proved against the documented layout.",
-  "note": "The whole-history statement (index equals the chain) is not decided; S11 (re-examined blocks re-create spent cells of already-synced scripts) is a listed known finding.",
+  "note": "The whole-history statement (index equals the chain) is not decided; S11 (re-examined blocks re-create spent cells of already-synced scripts) is a listed known finding. Session 3: extract_raw_data (unit raw_data), check_filters_data's matching tail (completeness: every matching filter of the verified prefix contributes its block), remove_matched_blocks under contract.",
   "ref": "DESIGN.md 5-C03"},
  "C13": {
   "text": "Partial (key layout, scan positioning, per-entry filters): the per-entry code of get_cells / get_cells_capacity / get_transactions (both branches), lifted out of its closures, reports an entry iff every given filter admits it, with the entry's own fields, and moves the cursor exactly then; get_cells_capacity adds exactly the capacity of the cells get_cells would report. Also: the real encoder From<Key> for Vec<u8> / append_key / Key::into_vec produces exactly prefix | script raw data | number be64 | tx_index be32 | io_index be32 [| io_type] for every key; the real build_query_options returns exactly (prefix, from key, direction, skip) as the property's mechanism prescribes for every search key, order and cursor.",
-  "note": "The grouping step of get_transactions (merge an entry into the last group / open a new group) is under contract too. Pagination as a whole (iterator chains, skip, limit, cursor across pages, order reversal) is NOT under contract.",
+  "note": "The grouping step of get_transactions (merge an entry into the last group / open a new group) is under contract too. Pagination as a whole (iterator chains, skip, limit, cursor across pages, order reversal) is NOT under contract. Session 3: units raw_data (extract_raw_data verified as written) and capacity_tip (reported tip and capacity of get_cells_capacity).",
   "ref": "DESIGN.md 5-C13"},
  "C04": {
   "text": "Partial: contract on the real text of Storage::rollback_to_block (for every store content the committed batch is exactly: per registered script whose progress reached the fork point, per history entry of exactly that script in a block >= to_number, newest first: an output entry deletes the cell it created and the entry, an input entry re-creates the spent cell under its CREATING block/tx/output index and deletes the entry; script progress := to_number; filter progress := to_number - 1) and contracts on the real text of commit_prove_state (fork-point search via stored last-N headers, rollback target, long-fork result) and the callers' gates: the index is rolled back only to <= fork point + 1 where the fork point is the highest reorg header equal to a remembered last-N header (or to block 1 when the previous tip is block 1); Ok(false) is returned only if no reorg header is remembered and then the stored tip writer is not reached with reorg evidence; the stored tip moves only to a strictly heavier trusted state.",
-  "note": "The composition over whole histories, pruning effects on stored matched-block records, liveness ('never gets stuck') and build_prove_request_content's rebasing are NOT decided here.",
+  "note": "The composition over whole histories, pruning effects on stored matched-block records, liveness ('never gets stuck') and build_prove_request_content's rebasing are NOT decided here. Session 3: known findings S17 (a matched-block record spanning the fork point is kept: syncing waits for an abandoned block) and S18 (a fork point below the rebased request start is not detected: no rollback), each with its own obligation in commit_prove_state and an end-to-end replay on the real code; Peers::update_prove_state's per-peer body (cached filter hashes dropped on a fork switch) under contract.",
   "ref": "DESIGN.md 5-C04"},
  "C10": {
   "text": "Partial: Verus's totality obligations (no arithmetic overflow on u64/u32/usize, no out-of-bounds index/slice, no unwrap/expect on None/Err, no reachable panic!, dependency calls that panic modelled as preconditions) are discharged for every function extracted in units difficulty, peer_state and proof_gate with NO assumption on peer-controlled inputs; the SendLastState and SendLastStateProof handlers are covered end to end. Five peer-triggerable panics were found this way and fixed (bdfa2f5, 4e1a4f2, f66b534, S1h); the U256-overflow sites reachable only with absurd difficulties are listed known findings (D2).",
@@ -44,20 +44,20 @@ CLAIMED = {
 
  "C02": {
   "text": "Gate-by-precondition over the real text of SendBlocksProofProcess::{execute, execute_internally}, SendTransactionsProofProcess::{execute, execute_internally}, verify_extra_hash, BlocksProofRequest::check_block_hashes, TransactionsProofRequest::check_tx_hashes (iff against 'response == request'), verify_mmr_proof: a matched block is flagged proved, a header is stored as fetched, a transaction is stored as fetched, and hashes are reported not_found only under evidence whose introduction rules are the property's conjunction (response's last header is the one the request named and commits to its chain root; valid MMR proof binds the returned headers; PoW valid; v1 extension committed by the extra hash; CBMT proof + witnesses root reproduce the header's transactions root for the shipped transactions; the response answers the outstanding request; the hash was requested). Verus proves every path reaching a writer carries it.",
-  "note": "The SendBlock arm of SyncProtocol::received is under contract too (unit sync_block): a block body is accepted only if the roots in its received header equal the roots computed from the body, and only such blocks with a proved entry reach filter_block. Crypto functions uninterpreted; readers/storage/peer table are shims.",
+  "note": "The SendBlock arm of SyncProtocol::received is under contract too (unit sync_block): a block body is accepted only if the roots in its received header equal the roots computed from the body, and only such blocks with a proved entry reach filter_block. Crypto functions uninterpreted; readers/storage/peer table are shims. Session 3: proved-flag gate (flags_proven) on both add_matched_blocks in BlockFiltersProcess; unit matched_table (all_matched_blocks_downloaded, mark / add entry steps); hints anchored so that a moved add_block / mark_matched_blocks_proved call fails its gate.",
   "ref": "DESIGN.md 5-C02"},
 
  "C06": {
   "text": "Gate-by-precondition over the real text of BlockFiltersProcess::execute and FilterProtocol::update_min_filtered_block_number: the filtered height advances and matched blocks are recorded only for a batch that starts exactly at min_filtered+1 and whose accepted prefix hashes, chained (H_i = filter_hash(H_{i-1}, f_i)) from the authentic hash of block start-1, to the authentic hash of block start+i for every i - where 'authentic' is produced only by the finalized check points, the quorum vector, and - below the finalized check point - the cached hashes of a COMPLETE interval whose last entry was compared with the finalized next check point (BlockFilterHashesProcess::execute is proved to keep that cache invariant at its only update; that the entries before the last one are agreed values is an explicit obligation that nothing discharges: known finding S15), and the index arithmetic that attributes each expected hash to its block is proved (all four provenance branches). BlockFilterHashesProcess / BlockFilterCheckPointsProcess and LatestBlockFilterHashes / CheckPoints are proved total. The quorum search of Peers::get_latest_block_filter_hashes is under contract too (unit quorum): a non-empty answer is agreed on, position by position, by at least ceil(max_outbound_peers / 2) of the selected proven peers.",
-  "note": "Partial: block_hashes of the message (which block is downloaded for a matching filter) are NOT verified - named in evidence (known finding S6); the selection of the proven peers' vectors and the iterator pipelines of the quorum search are assumed helpers. Found and fixed while proving: S1d, S1i, S1j, S1k, S13 (c3226dc), S14 (a643133). Known findings: S6, S15.",
+  "note": "Partial: block_hashes of the message (which block is downloaded for a matching filter) are NOT verified - named in evidence (known finding S6); the selection of the proven peers' vectors and the iterator pipelines of the quorum search are assumed helpers. Found and fixed while proving: S1d, S1i, S1j, S1k, S13 (c3226dc), S14 (a643133). Known findings: S6, S15. Session 3: check_filters_data's matching tail under contract (only filters of the hash-verified prefix are matched, each contributes the hash listed at its own position; GCS matching is an uninterpreted dependency result).",
   "ref": "DESIGN.md 5-C06"},
  "C07": {
   "text": "Partial: contract on the real text of the agreement search and the two storage writes of LightClientProtocol::finalize_check_points (the block after the cleaning step, lifted mechanically) and on Peers::required_peers_count, Storage::update_check_points, Storage::update_max_check_point_index: check points are written only with the evidence that at least ceil(max_outbound_peers / 2) of the peers that entered the search report the same value for every position from the last final check point up to the written one (position by position, proved by a loop invariant over the real branch structure: count_max >= required, retain the agreeing peers, stop at the first position without a quorum); exactly those values are written, at consecutive indices starting right after the last final one, and the final index moves forward by the number of values written.",
-  "note": "The iterator pipelines over HashMap<PeerIndex, (u32, Vec<Byte32>)> (sizes, counting fold, max, find_map, retain, into_values) are replaced by helpers with assumed std semantics. The bodies of the cleaning loop and of the loop applying its skip list are under contract too (a listed peer always leaves the search, a flagged one is banned; a peer stays iff it reports the final value at the final index, and is then aligned to it; it is flagged for banning iff it contradicts the final value or starts after the final index); the per-peer selection closure of the proven peers is proved in unit peer_state. NOT decided: the glue between the lifted blocks (the search block's precondition is assumed at its call site), completeness ('fewer deviating peers cannot block agreement'), and that storage keys below the final index are never written by anything else.",
+  "note": "The iterator pipelines over HashMap<PeerIndex, (u32, Vec<Byte32>)> (sizes, counting fold, max, find_map, retain, into_values) are replaced by helpers with assumed std semantics. The bodies of the cleaning loop and of the loop applying its skip list are under contract too (a listed peer always leaves the search, a flagged one is banned; a peer stays iff it reports the final value at the final index, and is then aligned to it; it is flagged for banning iff it contradicts the final value or starts after the final index); the per-peer selection closure of the proven peers is proved in unit peer_state. NOT decided: the glue between the lifted blocks (the search block's precondition is assumed at its call site), completeness ('fewer deviating peers cannot block agreement'), and that storage keys below the final index are never written by anything else. Session 3: get_max_check_point_index decoding; unit genesis_init (a restart never rewrites check points).",
   "ref": "DESIGN.md 5-C07"},
  "C09": {
   "text": "Contracts on the real text of Storage::update_filter_scripts: for every store content and argument the committed batch is exactly the documented command (all: every stored script entry deleted, every given script stored with its start number; partial: the given scripts stored; delete: the given scripts removed); the filter progress is only written to values at or below the start numbers of the scripts named; the pending matched blocks are discarded only with the evidence that the filter progress stands at or below the block number of every script that remains registered (this gate fails on the code before fix S10). Plus the gate on update_block_number in BlockFiltersProcess::execute (a script's recorded height is raised only when no matched block is waiting).",
-  "note": "Missing calls (e.g. a deleted clear_matched_blocks) cannot be detected by preconditions; the RPC wrapper set_scripts is not under contract.",
+  "note": "Missing calls (e.g. a deleted clear_matched_blocks) cannot be detected by preconditions; the RPC wrapper set_scripts is not under contract. Session 3: commit evidence (update_filter_scripts ensures that the replacement batch was committed: a missing call cannot fail a gate), map_while lowering for get_scripts_hash, unit genesis_init.",
   "ref": "DESIGN.md 5-C09"},
 
  "C15": {
@@ -67,15 +67,15 @@ CLAIMED = {
 
  "C16": {
   "text": "Partial: contracts on the real text of TransactionRpcImpl::{fetch_transaction, get_transaction} and ChainRpcImpl::fetch_header (service.rs): the reported status is exactly the function of (stored?, fetch-table entry) the property states (fetched / not_found+re-add / fetching{first_sent} / added{ts}), an existing added or in-flight entry is never reset by a call (gate on add_fetch_*), committed is reported iff the store has the transaction and then with the hash of the header the store returns for it; together with the fetch_gate gates (not_found only after a verified matching response).",
-  "note": "Also under contract: a timed-out peer is disconnected (refresh_all_peers) and a peer's entry is dropped (Peers::remove_peer) only after the fetch entries it serves were re-armed; Storage::get_transaction_with_header returns the stored transaction with the header stored for its own block number; the serving peer's pending request is dropped only with evidence that its entries were re-armed or answered (S12). The per-entry steps of the fetch tables (unit fetch_table: what a status query reads, which entries are (re)sent, marking missing / timed out / in flight) are under contract; the DashMap iteration around them is not.",
+  "note": "Also under contract: a timed-out peer is disconnected (refresh_all_peers) and a peer's entry is dropped (Peers::remove_peer) only after the fetch entries it serves were re-armed; Storage::get_transaction_with_header returns the stored transaction with the header stored for its own block number; the serving peer's pending request is dropped only with evidence that its entries were re-armed or answered (S12). The per-entry steps of the fetch tables (unit fetch_table: what a status query reads, which entries are (re)sent, marking missing / timed out / in flight) are under contract; the DashMap iteration around them is not. Session 3: the TxHash key-space obligations of filter_block / rollback_to_block count for C16 (marker-only per function).",
   "ref": "DESIGN.md 5-C16"},
  "C17": {
   "text": "Partial (lock discipline only): gate-by-precondition over the real text of the four operations the property names - BlockFilterRpcImpl::set_scripts, BlockFiltersProcess::execute (with FilterProtocol::update_min_filtered_block_number), the SendBlock arm of SyncProtocol::received, and the fork rollback in LightClientProtocol::commit_prove_state: every mutation of the sync progress (update_filter_scripts, add_matched_blocks, remove_matched_blocks, update_block_number, update_min_filtered_block_number, filter_block, rollback_to_block) is reachable only after the handler has taken the write lock of Peers::matched_blocks (evidence produced by RwLock::write().expect()).",
-  "note": "NOT decided: that the guard is still alive at the mutation (Rust scoping; an explicit early drop would not be seen), serialisability of the outcomes, snapshot consistency of readers, deadlock freedom - thread interleavings are outside contract-based verification of sequential code.",
+  "note": "NOT decided: that the guard is still alive at the mutation (Rust scoping; an explicit early drop would not be seen), serialisability of the outcomes, snapshot consistency of readers, deadlock freedom - thread interleavings are outside contract-based verification of sequential code. Session 3: unit capacity_tip: the tip reported by get_cells_capacity is decoded from the snapshot that was scanned (one clause; snapshot consistency of the other readers is not under contract).",
   "ref": "DESIGN.md 5-C17"},
  "C18": {
   "text": "Contracts on the real text of verify_tx, resolve_tx (its cache closure lambda-lifted), ContextualTransactionVerifier::{new, verify} (verify.rs): Ok(cycles) only with structural verification, pairwise distinct inputs, every input and dep resolved to a cell the client's provider reported live, since / capacity / script verification at the stored tip, cycles = what the scripts consumed. And contracts on the real text of send_transaction, estimate_cycles, get_transaction (pending branch) and PendingTxs::{new, push, get}: a transaction enters the pending pool only with the evidence that verify_tx accepted exactly it with exactly those cycles; estimate_cycles reports those cycles; the pool never exceeds its limit, the newest entry is the pushed transaction with an empty announced-peer set and the oldest entry is the one evicted.",
-  "note": "The five verifiers and the cell provider are dependency / storage code (evidence-producing shims); the per-entry body of the once-per-peer broadcast (PendingTxs::fetch_transaction_hashes_for_broadcast: a hash is handed out for a peer iff the peer was not yet in the entry's announced set, and afterwards it is) is under contract, the iter_mut().filter_map().collect() around it is not.",
+  "note": "The five verifiers and the cell provider are dependency / storage code (evidence-producing shims); the per-entry body of the once-per-peer broadcast (PendingTxs::fetch_transaction_hashes_for_broadcast: a hash is handed out for a peer iff the peer was not yet in the entry's announced set, and afterwards it is) is under contract, the iter_mut().filter_map().collect() around it is not. Session 3: parse_dep_group_data (an empty dep group is rejected), HeaderProvider / HeaderFieldsProvider of StorageWithChainData under contract.",
   "ref": "DESIGN.md 5-C18"},
 }
 
